@@ -222,6 +222,10 @@ class SymEval:
             if p == "None":
                 return NONE
             last = p.split("::")[-1]
+            if last in ("BITS", "MAX", "MIN") and len(p.split("::")) >= 2:
+                w_ = {"u8": 8, "u16": 16, "u32": 32, "Word": 32, "u64": 64, "usize": 64}.get(p.split("::")[-2])
+                if w_:
+                    return {"BITS": w_, "MAX": (1 << w_) - 1, "MIN": 0}[last]
             if last.isupper() and len(last) > 1:
                 cv = self.h.resolve_const(p)        # SCREAMING_CASE: a constant item of the analysed crates
                 if cv is not NotImplemented:
@@ -482,6 +486,10 @@ class SymEval:
                 if n_ is None:
                     self.fail("array::from_fn without a known length", e)
                 return ("list", [self.apply(args[0], [i_]) for i_ in range(n_)])
+            if p.split("::")[-1] == "repeat_with" and len(args) == 1:
+                return ("repeat_with", args[0])
+            if p.split("::")[-1] == "repeat" and p.split("::")[-2:-1] == ["iter"] and len(args) == 1:
+                return ("repeat_with", ("constfn", args[0]))
             if p.split("::")[-2:] == ["iter", "once"] and len(args) == 1:
                 return ("list", [args[0]])
             if p.split("::")[-2:] == ["iter", "empty"] and not args:
@@ -809,6 +817,10 @@ class SymEval:
         return True
 
     def apply(self, clo, args):
+        if isinstance(clo, tuple) and clo[0] == "constfn":
+            return clo[1]
+        if isinstance(clo, tuple) and clo[0] == "thunk":
+            return self.apply(clo[1], [])           # the element producer of repeat_with: the index is ignored
         if isinstance(clo, tuple) and clo[0] == "compose":
             return self.apply(clo[2], [self.apply(clo[1], args)])
         if isinstance(clo, tuple) and clo[0] == "enum" and not clo[2]:
@@ -859,6 +871,12 @@ class SymEval:
             return r
         if isinstance(recv, tuple) and recv[0] == "list" and len(recv) == 3 and m == "map" and len(args) == 1:
             return ("lazy", recv[1], args[0])       # adaptor over a range: evaluated on demand, in order
+        if isinstance(recv, tuple) and recv[0] == "repeat_with":
+            if m == "take" and len(args) == 1 and isinstance(args[0], int):
+                if args[0] > 100000:
+                    self.fail("take(%d) of an unbounded iterator" % args[0], e)
+                return ("lazy", list(range(args[0])), ("thunk", recv[1]))
+            self.fail("method on an unbounded iterator", e)
         if isinstance(recv, tuple) and recv[0] == "lazy":
             if m == "collect" and not args:
                 tf = (e[4] or "") if len(e) > 4 and isinstance(e[4], str) else ""
@@ -1356,6 +1374,23 @@ class SymEval:
         if k == "p_ident":
             if pat[4] is None and pat[1] == "None":
                 return v == NONE if self.shape(v) else None
+            if pat[4] is None and not pat[2] and not pat[3] and len(pat[1]) > 1 and pat[1].isupper() and pat[1] not in env:
+                # SCREAMING_CASE in pattern position is a constant, not a binding
+                cv = self.h.path(pat[1])
+                if cv is NotImplemented:
+                    cv = self.h.resolve_const(pat[1])
+                    if isinstance(cv, tuple) and cv and cv[0] == "constinit":
+                        cv = self.ev(cv[1], Scope({}))
+                if cv is NotImplemented:
+                    return None
+                r_ = self.h.binary("==", v, cv, None)
+                if isinstance(r_, bool):
+                    return r_
+                if opaque(v) or opaque(cv):
+                    return None
+                if self.concrete(v) and self.concrete(cv):
+                    return v == cv
+                return None
             if pat[4] is not None:
                 r = self.match_pat(pat[4], v, env)
                 if r:
